@@ -12,9 +12,11 @@ V = os.path.abspath(os.path.join(os.path.dirname(__file__), '..'))
 LEAF_TYPES = ['u8', 'u16', 'u32', 'u64', 'i8', 'i16', 'i32', 'i64', 'bool', 'char', 'f32', 'f64', 'String']
 
 
-def F(name, ty, idx, b=False, tag=None, skip=False, codec=None, nilable=None):
-    """nilable: the field type is not spelled Option<..> but *is* an Option (type alias) - nil by the Encode/Decode traits"""
-    return {'name': name, 'ty': ty, 'idx': idx, 'b': b, 'tag': tag, 'skip': skip, 'codec': codec, 'nilable': nilable}
+def F(name, ty, idx, b=False, tag=None, skip=False, codec=None, nilable=None, long=None):
+    """nilable: the field type is not spelled Option<..> but *is* an Option (type alias) - nil by the Encode/Decode traits
+    long: spelling of the index attribute: 'cbor' = #[cbor(n(1))] / #[cbor(b(1))], 'merged' = the index inside the same #[cbor(..)]
+    list as the tag"""
+    return {'name': name, 'ty': ty, 'idx': idx, 'b': b, 'tag': tag, 'skip': skip, 'codec': codec, 'nilable': nilable, 'long': long}
 
 
 def S(name, kind, fields=(), enc=None, tag=None, transparent=False, lifetimes=False, generics=None, doc=''):
@@ -95,6 +97,14 @@ def corpus():
     C.append(S('B03', 'tuple', [F('_0', "Cow<'a, [u8]>", 0, b=True, codec='bytes')], transparent=True, lifetimes=True, doc='transparent, borrowed bytes with codec'))
     C.append(S('B04', 'struct', [F('f00', "Cow<'a, str>", 0, b=True)], transparent=True, lifetimes=True, doc='transparent, borrowed str'))
     C.append(S('B05', 'tuple', [F('_0', "Cow<'a, ByteSlice>", 0, b=True)], transparent=True, lifetimes=True, doc='transparent, borrowed ByteSlice'))
+    # --- the long spellings of the index attribute: #[cbor(n(N))], #[cbor(b(N))], and the index merged with a tag --------------
+    C.append(S('L00', 'struct', [F('f00', "Cow<'a, str>", 0, b=True, long='cbor'), F('f01', "Cow<'a, ByteSlice>", 1, b=True, long='cbor'),
+                                 F('f02', 'u8', 2, long='cbor'), F('f03', "Option<&'a str>", 3, b=True, long='cbor')], lifetimes=True, doc='long-form index attributes, array'))
+    C.append(S('L01', 'struct', [F('f00', "Cow<'a, str>", 2, b=True, long='merged', tag=7), F('f01', "Cow<'a, [u8]>", 0, b=True, long='cbor', codec='bytes'),
+                                 F('f02', 'Option<u16>', 1, long='merged', tag=9)], enc='map', lifetimes=True, doc='long-form index merged with a tag, map'))
+    C.append(E('L02', [Var('V0', 0, 'named', [F('f00', "Cow<'a, str>", 0, b=True, long='cbor'), F('f01', 'u8', 1, long='cbor')]),
+                       Var('V1', 1, 'tuple', [F('_0', "Cow<'a, ByteSlice>", 0, b=True, long='cbor')], enc='map')], lifetimes=True, doc='long-form borrowing inside enum variants'))
+    C.append(S('L03', 'tuple', [F('_0', "Cow<'a, str>", 0, b=True, long='cbor')], transparent=True, lifetimes=True, doc='transparent, long-form borrow'))
     # --- values that are nil without being spelled Option<..>, and wrappers around Option that are *not* nil ----------------------
     C.append(S('T00', 'tuple', [F('_0', 'Option<u8>', 0)], transparent=True, doc='transparent newtype around an Option'))
     C.append(S('N00', 'struct', [F('f00', 'u8', 0), F('f01', 'Box<Option<u8>>', 1), F('f02', 'Option<u8>', 2)], doc='boxed option (never nil) in the middle'))
@@ -179,9 +189,13 @@ def attr_field(f, default_n=True):
     a = []
     if f['skip']:
         a.append('#[cbor(skip)]')
+    elif f.get('long') == 'merged' and f['tag'] is not None:
+        a.append('#[cbor(%s(%d), tag(%d))]' % ('b' if f['b'] else 'n', f['idx'], f['tag']))
+    elif f.get('long'):
+        a.append('#[cbor(%s(%d))]' % ('b' if f['b'] else 'n', f['idx']))
     else:
         a.append('#[%s(%d)]' % ('b' if f['b'] else 'n', f['idx']))
-    if f['tag'] is not None:
+    if f['tag'] is not None and f.get('long') != 'merged':
         a.append('#[cbor(tag(%d))]' % f['tag'])
     c = f['codec']
     if c == 'bytes':
